@@ -95,4 +95,8 @@ ObsDone ==
   IF d - 1 = Len(Rec) THEN TRUE ELSE Print(<<"OBSERVE-INCOMPLETE at event", d>>, FALSE)
 \* C07 (size half, observed): no produced datagram exceeds the UDP payload limit
 C07_Size == [][ (l <= Len(Rec) /\ "outlen" \in DOMAIN Rec[l]) => Rec[l].outlen <= 65507 ]_ovars
-==============================================================================
+\* C03 on real traces: no node ever knows a member under an identity nobody uses (honest scenarios only:
+\* every identity on the wire is one of the configured nodes, so a copy filed under another name was invented
+\* by an encode / decode round trip or by cross-wiring)
+C03_KnownMembers == \A n \in Node : DOMAIN st[n].ns \subseteq Node
+=============================================================================
